@@ -32,8 +32,8 @@ import dbgen
 
 M64 = (1 << 64) - 1
 TTL = [60]           # nodeHostTTL, read from the code by the executor
-MUT = ("SC", "SCNIL", "SR", "SRNIL", "SB", "SD", "RP", "T", "Q")
-CONFIG = ("SC", "SCNIL", "SR", "SRNIL", "SB", "SD")
+MUT = ("SC", "SCNIL", "SR", "SRNIL", "SB", "SD", "SDR", "RP", "T", "Q")
+CONFIG = ("SC", "SCNIL", "SR", "SRNIL", "SB", "SD", "SDR")
 CODE = {0: 0, 4: 1, 5: 2}
 
 
@@ -78,6 +78,8 @@ def op_line(op):
         return "SR %d %s %d %s" % (len(op[1]), " ".join(map(str, op[1])), len(op[2]), " ".join(map(str, op[2])))
     if k == "SD":
         return "SD %d" % op[1]
+    if k == "SDR":
+        return "SDR %d %d" % (op[1], op[2])
     if k == "RP":
         return "RP " + " ".join(map(str, E.report_tokens(op[1])))
     if k == "GT":
@@ -104,6 +106,8 @@ def op_human(op):
         return "SetBootstrapped()"
     if k == "SD":
         return "setDeploymentID(random source -> %d)" % op[1]
+    if k == "SDR":
+        return "setDeploymentID(random source -> %d) with another server's setDeploymentID(random source -> %d) landing between its draw and its proposal" % (op[1], op[2])
     if k == "RP":
         r = op[1]
         return "ReportAvailableNodeHost(addr=a%d, %d shard infos)" % (r["addr"], len(r["infos"]))
@@ -176,6 +180,9 @@ def canon(op, ans):
             return ("tok", [0, CODE.get(c, 100 + c)])
         if f[1] == "did":
             return ("tok", [2, int(f[2])])
+        if f[1] == "did2":
+            g = f[2].split()
+            return ("tok", [2, int(g[0]), int(g[1])])
         if f[1] == "v":
             return ("v", int(f[2]))
         if f[1] == "json":
@@ -308,6 +315,8 @@ def gen_case(rng, mal_sc, mal_sr, restart):
         acts.append(("SD", rng.choice([0, 1, 2, 77, M64, M64 - 1, rng.randrange(M64)])))
     if rng.random() < 0.5:
         acts.append(("SD", rng.choice([0, 5, 78, M64])))
+    if rng.random() < 0.35:
+        acts.append(("SDR", rng.choice([3, 81, M64 - 2]), rng.choice([4, 82, 90])))
     if rng.random() < 0.75:
         acts.append(good_regions(rng))
     if rng.random() < 0.35:
@@ -544,6 +553,15 @@ def monitor_case(name, ops, ans, stats):
                 fails.append(("codes", "well-formed %s answered %s instead of OK" % (op_human(op), line[:60]), i))
             elif regions is None:
                 regions = (tuple(op[1]), tuple(op[2]))
+        elif k == "SDR":
+            # both servers must come back with THE deployment id of the DB (first writer wins: here the other server, unless already set)
+            if tok[0] == 2 and len(tok) == 3:
+                if did is None:
+                    did = op[2] if tok[2] != 0 else op[1]
+                if tok[1] != did or (tok[2] != 0 and tok[2] != did):
+                    fails.append(("codes", "%s: this server returned %d, the other %d, the deployment id of the DB is %s" % (op_human(op), tok[1], tok[2], did), i))
+            else:
+                fails.append(("codes", "%s answered %s" % (op_human(op), line[:60]), i))
         elif k == "SD":
             if did is None and tok[0] == 2:
                 did = op[1]
@@ -825,6 +843,14 @@ def run(ck):
             obs = canon(op, a[0])
             if obs[0] == "bad":
                 break
+            if op[0] == "SDR" and obs[0] == "tok" and len(obs[1]) == 3:
+                # the other server's call is applied first, then this server's proposal: two sequential calls of the model
+                if obs[1][2] != 0:
+                    items.append(item_coq(("SD", op[2]), ("tok", [2, obs[1][2]])))
+                    idx.append(i)
+                items.append(item_coq(("SD", op[1]), ("tok", [2, obs[1][1]])))
+                idx.append(i)
+                continue
             items.append(item_coq(op, obs))
             idx.append(i)
             if obs[0] == "died":
